@@ -334,6 +334,7 @@ pub fn property() -> Property {
             Tier::Thorough => 1500.0,
         },
         info: || PropInfo {
+            floors: vec![],
             rule: "one run = a real node in a loss-free network of 2..300 scripted peers (unique IPs, private or public plan with secure/insecure mixes; id plans: random, clustered around the target, near-ties, few-close), each peer knowing 0..8 nearest neighbours plus 0..12 random contacts and answering with its k in {3,8,20} closest in shuffled order, response delays 0..120 ms; warm or cold routing table; one lookup of kind find_node / get_closest_nodes / get_peers / put_immutable / announce_peer. The verdict is computed from the lookup's own requests and the answers delivered in time. Non-trivial = more than 20 entries known or more than 3 requests; distinct = hash of the answer arrival order".into(),
             assumptions: vec!["all peers alive and loss-free, so routing-table seeds are answerers".into(), "unique IP per peer (per-IP limits are C12's subject)".into()],
         },
